@@ -106,6 +106,11 @@ def contrastive_runs(rep: Report, rng: random.Random, thorough: bool):
                 key = jr.PRNGKey(int(rs.integers(2**31)))
                 ps = [2.0, 0.75, 3.5, 1.25][(b + n + rep_i) % 4]          # a new loss object with another prior of the same structure each run
                 prior = tagged_prior(dim, ps)
+                runs_done = len(traces)
+                if runs_done and runs_done % 16 == 0:       # every loss object compiles its own executables: keep the process's
+                    import gc                               # memory maps below vm.max_map_count (DESIGN 3.2b)
+                    jax.clear_caches()
+                    gc.collect()
                 loss_obj = ContrastiveLoss(prior, n)
                 try:
                     val = float(loss_obj(params, static, jnp.asarray(x), jnp.asarray(c), key))
